@@ -454,6 +454,10 @@ class Fx:
         # environment *functions* (`RAND_INT(lo, hi)`): a parameter of function type, applied to the translated arguments
         self.env_fns = {e[0]: ([area.ty(t) for t in e[2]], area.ty(e[1])) for e in spec.get("env", []) if len(e) == 3}
         self.env_used = set()
+        # an explicit spec assumption (stated in the generated docstring): the consumer of the result does not depend on the order in
+        # which a `set` is iterated, so the runtime's insertion order stands for CPython's hash order
+        if spec.get("set_order") == "insertion":
+            self.set_order_ok = 1
         self.reads_log = []  # stack of sets (variables read inside the loops being translated)
         self.kill_log = []
 
@@ -838,6 +842,28 @@ class Fx:
             self.fail("dict comprehension with several generators", e)
         g = e.generators[0]
         it = g.iter
+        if isinstance(g.target, ast.Name) and isinstance(e.key, ast.Name) and e.key.id == g.target.id and not g.ifs:
+            # `{r: f(r) for r in s}` over a set (its elements are distinct, so are the keys of the result); `f(r)` may raise
+            # (`d[r]`): a monadic map, left to right
+            src, et, _p, raises = self.iterable(it)
+            srcv = self.expr(it)
+            if srcv.ty.k != "Set":
+                self.fail("dict comprehension `{k: … for k in xs}` over something that is not a set (keys could repeat)", e)
+            self.scopes.append({})
+            try:
+                pat = self.bind_target(g.target, et, e)
+                n0 = len(self.lines)
+                val = self.expr(e.value, want.a[1] if (want is not None and want.k == "Dict") else None)
+                if len(self.lines) != n0:
+                    self.fail("an effectful part inside a dict comprehension is outside the subset", e)
+            finally:
+                self.scopes.pop()
+            if val.raises:
+                self.monadic()
+                r = self.fresh("dc")
+                self.emit("let %s ← List.mapM (fun %s => do return (%s, %s)) %s" % (r, pat, pat, val.text, src))
+                return Val(r, T("Dict", et, val.ty), None, False, fresh=True)
+            return Val("(List.map (fun %s => (%s, %s)) %s)" % (pat, pat, val.text, src), T("Dict", et, val.ty), None, raises, fresh=True)
         if not (isinstance(it, ast.Call) and isinstance(it.func, ast.Attribute) and it.func.attr == "items" and not it.args
                 and isinstance(g.target, ast.Tuple) and len(g.target.elts) == 2 and all(isinstance(x, ast.Name) for x in g.target.elts)
                 and isinstance(e.key, ast.Name) and e.key.id == g.target.elts[0].id):
@@ -992,6 +1018,15 @@ class Fx:
                 if isinstance(r, (ast.Tuple, ast.List, ast.Set)):
                     lv = self.expr(l)
                     alts = [self.eq_text(lv, self.expr(x, lv.ty), e) for x in r.elts]
+                    s = "(" + " || ".join(alts) + ")" if alts else "false"
+                elif isinstance(r, ast.Name) and self.lookup(r.id) is None and isinstance(A.consts.get(r.id), tuple) \
+                        and all(isinstance(x, int) and not isinstance(x, bool) for x in A.consts[r.id]):
+                    # membership in a module-level constant collection of integers (`_RESPOND_IMMEDIATE_TYPES`): its value, as
+                    # `gen_lean.module_consts` evaluates it from the source, is expanded
+                    lv = self.expr(l)
+                    if lv.ty.k not in ("Num", "Nat"):
+                        self.fail("membership of a %r in a constant collection of integers" % lv.ty, e)
+                    alts = ["(decide (%s = %d))" % (lv.text, x) for x in A.consts[r.id]]
                     s = "(" + " || ".join(alts) + ")" if alts else "false"
                 else:
                     rv = self.expr(r)
@@ -1236,8 +1271,18 @@ class Fx:
         if fi.has_self:
             sv = self.expr(selfnode)
             args.append((("self", sv.ty), sv))
+        envargs = ""
         if getattr(fi, "env", None):
-            self.fail("call of %s, which reads the environment (%s): outside the subset" % (fi.lean, fi.env), node)
+            # environment *functions* (pure in their arguments) are handed on: the caller must declare the very same entry.
+            # A *reading* of the environment (clock, `zc.done`) cannot be shared between two calls: outside the subset.
+            for ent in fi.env:
+                if len(ent) != 3:
+                    self.fail("call of %s, which reads the environment (%s): outside the subset" % (fi.lean, ent[0]), node)
+                mine = self.env_fns.get(ent[0])
+                if mine is None or mine != ([A.ty(t) for t in ent[2]], A.ty(ent[1])):
+                    self.fail("call of %s, which uses the environment function %s: the caller's spec must declare the same entry" % (fi.lean, ent[0]), node)
+                self.env_used.add(ent[0])
+                envargs += " " + lean_local(ent[0].replace(".", "_"))
         if len(argnodes) != len(params):
             self.fail("call of %s with %d arguments (spec has %d)" % (fi.lean, len(argnodes), len(params)), node)
         for (pn, pt), an in zip(params, argnodes):
@@ -1257,7 +1302,7 @@ class Fx:
                     self.fail("two mutated arguments of %s may be the same object" % fi.lean, node)
         if fi.uses_lower:
             self.info.uses_lower = True
-        text = "%s%s %s" % (fi.lean, " lower" if fi.uses_lower else "", " ".join(a.text for _p, a in args))
+        text = "%s%s %s%s" % (fi.lean, " lower" if fi.uses_lower else "", " ".join(a.text for _p, a in args), envargs)
         comps = ([] if fi.ret == NONE else ["ret"]) + list(fi.mutated) + (["⟨effects⟩"] if fi.effects else [])
         if not fi.monadic and not fi.mutated and not fi.effects and fi.ret != NONE:
             # a pure function: an ordinary application (usable under `and` / `or` and inside comprehensions)
@@ -1450,6 +1495,12 @@ class Fx:
                     self.fail("`floor` on a function that does not return a number", s)
                 n, d = FnTr(self).num(s.value)
                 self.emit_return(n if d == 1 else "(Int.fdiv %s %d)" % (n, d))
+            elif self.ret == BOOL and (isinstance(s.value, ast.BoolOp) or (
+                    isinstance(s.value, ast.Call) and isinstance(s.value.func, ast.Name) and s.value.func.id == "bool"
+                    and len(s.value.args) == 1 and not s.value.keywords and isinstance(s.value.args[0], ast.BoolOp))):
+                # `return a and b` / `return bool(a and b)`: a statement-level test, a later operand may raise (`x is not None and x.f()`)
+                inner = s.value if isinstance(s.value, ast.BoolOp) else s.value.args[0]
+                self.emit_return(self.cond_val(inner, top=True).text)
             else:
                 v = self.expr(s.value, self.ret)
                 self.emit_return(None if self.ret == NONE else v.text)
@@ -1758,6 +1809,19 @@ class Fx:
                     return False
                 if m == "clear" and not e.args:
                     self.assign_path(b.path, "PySet.empty", node, via="mutate")
+                    return False
+                if m == "update" and len(e.args) == 1:
+                    # `s.update(iterable)`: every element added; the order in which the argument is walked does not show in a set
+                    self.set_order_ok = getattr(self, "set_order_ok", 0) + 1
+                    try:
+                        it, iet, _p, raises = self.iterable(e.args[0])
+                    finally:
+                        self.set_order_ok -= 1
+                    if iet != et:
+                        self.fail("set.update with elements of type %r (set of %r)" % (iet, et), node)
+                    if raises:
+                        self.monadic()
+                    self.mutate_path(b.path, lambda cur: "(List.foldl (PySet.add %s) %s %s)" % (A.eq_of(et, self), atom(cur), atom(it)), node, cur=b.text)
                     return False
             if b.ty.k == "Dict":
                 if m == "clear" and not e.args:
@@ -2145,8 +2209,9 @@ def translate_function(area, fn, spec, cls):
             sig += " (%s : %s)" % (lean_local(e[0]), area.lean_ty(area.ty(e[1])))
     info.env = list(spec.get("env", []))
     low = " (lower : String → String)" if info.uses_lower else ""
-    doc = "/-- `%s` (%s:%d)%s%s -/" % (where, area.rel, fn.lineno, "" if not info.mutated else "; returns " + ("the result and " if info.ret != NONE else "") + "the changed " + ", ".join(info.mutated),
-                                      "" if not info.effects else "; and the effects it caused, in order")
+    doc = "/-- `%s` (%s:%d)%s%s%s -/" % (where, area.rel, fn.lineno, "" if not info.mutated else "; returns " + ("the result and " if info.ret != NONE else "") + "the changed " + ", ".join(info.mutated),
+                                      "" if not info.effects else "; and the effects it caused, in order",
+                                      "" if spec.get("set_order") != "insertion" else "; SPEC ASSUMPTION: sets are iterated in insertion order (CPython: hash order)")
     if info.monadic:
         hdr = "def %s%s%s : Except PyExc %s := do" % (lean, low, sig, rty)
     else:
